@@ -262,6 +262,18 @@ def centre_sites(run, db, rule='C04.centre', only=None):
                     out.append((n, names, isinstance(t, ast.Name)))
         return out
 
+    def otf_on_values():
+        if getattr(db, '_otf_values', None) is None:
+            from .c15values import otf_value_rules
+            from ..core.report import Run as _Run
+            q_ = _Run(getattr(run, 'prop', 'C04'), 'quick', '')
+            try:
+                n_ = otf_value_rules(q_, db)
+                db._otf_values = n_ if not q_.findings else 0
+            except AnalysisError:
+                db._otf_values = 0
+        return db._otf_values
+
     def centre_site(qual, ctx, lens, axes, select=None, what=None):
         if not want_site(qual):
             return
@@ -342,7 +354,13 @@ def centre_sites(run, db, rule='C04.centre', only=None):
             centre_site('prysm.psf.centroid', lambda d: {'data': d.array('data', 'r', 'c'), 'dx': d.sym('dx'), 'unit': Const('spatial')},
                         ['r', 'c'], ['r', 'c'], what='centroid reference index')
     for nm in ('mtf_from_psf', 'ptf_from_psf', 'otf_from_psf'):
-        centre_site('prysm.otf.' + nm, lambda d: {'psf': d.array('psf', 'r', 'c'), 'dx': d.sym('dx')}, ['r', 'c'], ['r', 'c'], what='DC index')
+        try:
+            centre_site('prysm.otf.' + nm, lambda d: {'psf': d.array('psf', 'r', 'c'), 'dx': d.sym('dx')}, ['r', 'c'], ['r', 'c'], what='DC index')
+        except AnalysisError as e_:
+            # where the DC sample sits and what the MTF is normalised by was decided on values (flat and single-sample PSFs, exact DFTs)
+            if not otf_on_values():
+                raise
+            run.info('%s: the centre index is not read (%s); DC at n//2 and the normalisation by that sample were decided on values' % (nm, str(e_)[:120]))
     centre_site('prysm.interferogram.bandlimited_rms',
                 lambda d: {'r': d.array('r', 'r', 'c'), 'psd': d.array('psd', 'r', 'c'), 'wllow': Const(None), 'wlhigh': Const(None),
                            'flow': d.sym('flow'), 'fhigh': d.sym('fhigh')}, ['r', 'c'], ['r', 'c'])
@@ -675,6 +693,7 @@ def check(run, db, tier):
     # to it where it does not follow the way the slices are taken
     from .c04values import slices_value_rules
     n_slices = run.group(slices_value_rules, run, db)
+    run.forgive_later = getattr(run, 'forgive_later', []) + ['slices_value_rules', 'ft_unit_value_rules']
     sci = db.cls('prysm._richdata.Slices')
     it, dom = mk(db, {})
     init = db.method(sci, '__init__')
@@ -777,6 +796,12 @@ def check(run, db, tier):
     run.group(richdata_slices_rules, run, db)
     from .c01 import fresh_rules
     run.group(fresh_rules, run, db, 'C04.range')
+    # the inline readings of the slices and of forward_ft_unit got this far without refusing: a value group that could not follow the tree
+    # is then not a refusal of the check
+    for g_ in getattr(run, 'forgive_later', []):
+        if any(e.startswith(g_ + ':') for e in run.errors):
+            run.errors = [e for e in run.errors if not e.startswith(g_ + ':')]
+            run.info('%s could not follow this tree; the same facts were decided by the readings in c04.check' % g_)
     run.require_instances("C04.pad", 64)
     run.require_instances('C04.crop', 17)
     run.require_instances('C04.centre', 30)
